@@ -241,7 +241,7 @@ def kani_trace_values(work, ws, package, h, mem_gb=24):
     if package:
         cmd += ["-p", package]
     cmd += KANI_FLAGS + ["--target-dir", tdir, "--exact", "--harness", h["full"], "--output-format", "old",
-                         "--cbmc-args", "--trace"]
+                         "--no-slice-formula", "--cbmc-args", "--trace"]
     log = os.path.join(work, f"trace-{h['name']}.log")
     run_group(cmd, ws, base_env(work), timeout=h["cap"] * 3 + 600, mem_gb=mem_gb, log_path=log)
     txt = open(log, errors="replace").read()
@@ -251,9 +251,10 @@ def kani_trace_values(work, ws, package, h, mem_gb=24):
     for k in range(1, len(parts) - 1, 2):
         cid, body = parts[k], parts[k + 1]
         vals = []
-        for m in re.finditer(r"function verif_nd::imp::(\w+) [^\n]*\n-+\n\s*verif_nd_value=(-?\d+|TRUE|FALSE)", body):
+        # one `return_value` assignment per call of verif_nd::imp::<ty> (mangled: ..8verif_nd3imp<len><ty>)
+        for m in re.finditer(r"return_value\$\$\w*8verif_nd(?:3imp)?\d(u8|u16|u32|u64|i8|i16|i32|i64|bool)=(-?\d+|TRUE|FALSE)", body):
             v = m.group(2)
-            vals.append(1 if v == "TRUE" else 0 if v == "FALSE" else int(v))
+            vals.append(f"{m.group(1)}:{1 if v == 'TRUE' else 0 if v == 'FALSE' else int(v)}")
         traces[cid] = vals
     return traces, txt[-6000:]
 
